@@ -5,6 +5,8 @@
 //!   (b) every opcode prefix 0..=65535 followed by four short tails,
 //!   (c) structured datagrams: opcode 1, 2 or 6 followed by every sequence of 0..=5 tokens over
 //!       {NUL, "a", "octet", "blksize", "BlkSize", "tsize", "timeout", "windowsize", "12", "0", "x1", ff, 2^64 as decimal}.
+//!   (d) ERROR messages and request file names of 0..150 (and 255..23000) two-, three- and four-byte characters after 0..3 ASCII
+//!       bytes, terminated, unterminated and cut inside the last character (about 7600 datagrams).
 //! Checked: no panic; Ok(p) <=> the twin decodes p (so: short headers, unknown opcodes / error codes, missing NUL
 //! terminators and non-numeric values of recognised options are rejected, and nothing else is); stability: whatever is
 //! accepted re-encodes to something that decodes to the same packet.   usage: bounded_decoder [C10|C11] (C10: without the
@@ -163,6 +165,29 @@ fn main() {
                     c /= tokens.len();
                 }
                 check(&buf, &mut cases, exact);
+            }
+        }
+    }
+    // (d) long strings of multi-byte characters: every byte length up to 300 (and a few up to 70000) with a character
+    // boundary at every offset modulo the character width, as an ERROR message and as a request's file name
+    for ch in ["\u{e9}", "\u{20ac}", "\u{1f600}"] {
+        for lead in 0..4usize {
+            for n in (0..=150usize).chain([255, 256, 257, 511, 512, 513, 16384, 23000]) {
+                let text = format!("{}{}", "a".repeat(lead), ch.repeat(n));
+                if text.len() > 70000 { continue; }
+                let mut e = vec![0u8, 5, 0, 1];
+                e.extend_from_slice(text.as_bytes());
+                e.push(0);
+                check(&e, &mut cases, exact);
+                let mut r = vec![0u8, 1];
+                r.extend_from_slice(text.as_bytes());
+                r.extend_from_slice(b"\0octet\0");
+                check(&r, &mut cases, exact);
+                // the same without the terminator, and cut inside the last character
+                e.pop();
+                check(&e, &mut cases, exact);
+                e.pop();
+                check(&e, &mut cases, exact);
             }
         }
     }
